@@ -51,13 +51,13 @@ func init() {
 		Assumptions: commonAssumptions})
 	describe(&PropertyDoc{ID: "C07",
 		Explanation: "Structural facts of IPv4 host recognition.",
-		Decides:     []string{"no sign-accepting strconv conversion sees text that was not validated against the digit set of its radix (FLOW-strconv)", "the IPv4 parser runs only for special hosts that end in a number (FLOW-ipv4)", "radix prefixes are exactly 0x/0X and a leading 0 (TAB-ipv4prefix)", "rejection points are the standard's (SM-failpoints rows)", "digit tables are exact (TAB-ascii)"},
-		NotDecided:  []string{"value assembly and serialisation", "the ends-in-a-number decision beyond its call structure"},
+		Decides:     []string{"no sign-accepting strconv conversion sees text that was not validated against the digit set of its radix (FLOW-strconv)", "the IPv4 parser runs only for special hosts that end in a number (FLOW-ipv4)", "the radix and stripped prefix that reach the conversion equal the standard's table on every realisable valuation of the prefix/length tests (TAB-ipv4prefix)", "no integer conversion of a parsed number loses a value the parse can return (FLOW-width)", "rejection points are the standard's (SM-failpoints rows)", "digit tables are exact (TAB-ascii)"},
+		NotDecided:  []string{"assembly of the 32-bit value from the parts, and serialisation", "the ends-in-a-number decision beyond its call structure"},
 		Assumptions: commonAssumptions})
 	describe(&PropertyDoc{ID: "C08",
 		Explanation: "Structural facts of IPv6 host acceptance.",
-		Decides:     []string{"exactly the first and last byte are removed from a host tested to start with '[' and end with ']' (FLOW-brackets)", "every validation error of the IPv6 parser is an aborting failure; the 13 failure points are the standard's (SM-failpoints)"},
-		NotDecided:  []string{"piece arithmetic, compression choice, canonical text"},
+		Decides:     []string{"exactly the first and last byte are removed from a host tested to start with '[' and end with ']' (FLOW-brackets)", "every validation error of the IPv6 parser is an aborting failure; the 13 failure points are the standard's (SM-failpoints)", "multiply-and-add accumulators of the address parser are bounded inside their loops: they cannot wrap (FLOW-accum)"},
+		NotDecided:  []string{"piece placement, compression choice, canonical text"},
 		Assumptions: commonAssumptions})
 	describe(&PropertyDoc{ID: "C09",
 		Explanation: "Order and coverage of the domain pipeline.",
@@ -66,7 +66,7 @@ func init() {
 		Assumptions: commonAssumptions})
 	describe(&PropertyDoc{ID: "C10",
 		Explanation: "Set-level clauses decided completely; string-level codec laws are not.",
-		Decides:     []string{"membership of the six named sets for all 0x110000 code points equals the standard's; byte and rune predicates agree (TAB-sets)", "default option sets are the standard's (TAB-defaults)", "deriving a set returns a fresh set and never writes its parent (EFF-derive, TAB-ctor)", "named sets and bitsets are never written after initialisation (EFF-globals)", "escapes use upper-case hex in all three encoder copies (TAB-hex)"},
+		Decides:     []string{"membership of the six named sets for all 0x110000 code points equals the standard's; byte and rune predicates agree (TAB-sets)", "default option sets are the standard's (TAB-defaults)", "deriving a set returns a fresh set and never writes its parent (EFF-derive, TAB-ctor)", "named sets and bitsets are never written after initialisation (EFF-globals)", "escapes use upper-case hex in every function that writes a '%' (TAB-hex)", "the rune copy of a string is never indexed by a byte offset of that string (FLOW-units)"},
 		NotDecided:  []string{"string-level laws (idempotence, decode∘encode) beyond the encoder gating on the set predicate"},
 		Assumptions: commonAssumptions})
 	describe(&PropertyDoc{ID: "C11",
